@@ -221,6 +221,64 @@ def explore(task):
     return res
 
 
+
+# ----------------------------------------------------------------------------- Colang 2.x: generated values as data
+# Texts the LLM produces for `$name = ..."..."` / `$topic = ..."..."` are interpolated into a message with TWO
+# placeholders; whatever brace / variable syntax they contain must arrive in the reply literally.
+V2_TWO = """
+import core
+import llm
+
+flow main
+  activate asking two
+
+flow asking two
+  user said "two"
+  $name = ..."Generate a name"
+  $topic = ..."Generate a topic"
+  bot say "Hi {$name}, let us talk about {$topic}."
+"""
+
+BRACE_VALUES = ["plain", "{$topic}", "{$name}", "{$system}", "Bob {nick: Bobby}", "{{7*7}}", "{{ 1234*5 }}", '{"a": 1}', "$topic", "{", "}", "{}", "{{", "}}",
+                "a {$topic} b {$name}", "{$topic}{$topic}", "{{$topic}}", "\\{$topic\\}", "{0}", "%s {x!r}"]
+
+
+def explore_v2_values(chunk):
+    res = {"worlds": 1, "turns": 0, "llm_positions": 0, "hostile_reached_reply": 0, "viol": []}
+    world = World(V2_TWO, 'colang_version: "2.x"\n')
+    for name, topic in chunk:
+        def fn(task, prompt, i, name=name, topic=topic):
+            tail = prompt[-60:]
+            if "$name =" in tail:
+                return repr(name)
+            if "$topic =" in tail:
+                return repr(topic)
+            return '"?"'
+        turn = rw.run_turn(world, [{"role": "user", "content": "two"}], {}, fn, state={})
+        res["turns"] += 1
+        res["llm_positions"] += len(turn.llm_calls)
+        info = {"engine": "E3-world", "prop": "C17", "version": "2.x", "mode": "two_values", "name": name, "topic": topic}
+        if turn.exc is not None:
+            res["viol"].append((f"generate-raised:{type(turn.exc).__name__}:v2:two_values", f"name={name!r} topic={topic!r}: {turn.exc!r}", info))
+            continue
+        want = f"Hi {name}, let us talk about {topic}."
+        if len(turn.llm_calls) != 2:
+            res["viol"].append(("harness:v2-two-values-llm-calls", f"{len(turn.llm_calls)} LLM calls", info))
+            continue
+        if turn.text == want:
+            res["hostile_reached_reply"] += 1
+        else:
+            kind = "double-braces-collapsed" if turn.text == want.replace("{{", "{").replace("}}", "}") else "generated-value-not-literal"
+            res["viol"].append((f"{kind}:v2:two_values", f"LLM values name={name!r}, topic={topic!r}: reply {turn.text!r}, expected {want!r}", info))
+    seen, uniq = set(), []
+    for v in res["viol"]:
+        if v[0] not in seen:
+            seen.add(v[0])
+            uniq.append(v)
+    res["viol"] = uniq
+    return res
+
+
 def tasks(tier):
     items = list(CORPUS)
     if tier == "thorough":
@@ -248,6 +306,14 @@ def run(rep, tier):
                 agg[k] = agg.get(k, 0) + v
         for sig, what, info in r["viol"]:
             rep.violation(sig, what, info)
+    pairs = [(a, b) for a in BRACE_VALUES for b in (BRACE_VALUES if tier == "thorough" else ["plain", "{$name}", "cats {x}"])]
+    for r in par.pmap(explore_v2_values, [pairs[i:i + 10] for i in range(0, len(pairs), 10)]):
+        for k, v in r.items():
+            if isinstance(v, int):
+                agg[k] = agg.get(k, 0) + v
+        for sig, what, info in r["viol"]:
+            rep.violation(sig, what, info)
+    rep.set("v2_generated_value_pairs", len(pairs))
     for k, v in agg.items():
         rep.set(k, v)
     rep.set("corpus_size", len(CORPUS))
@@ -262,6 +328,10 @@ def run(rep, tier):
 
 
 def replay(rp):
+    if rp.get("mode") == "two_values":
+        r = explore_v2_values([(rp["name"], rp["topic"])])
+        print(r["viol"] or "no violation")
+        return 0
     world = build(rp["version"], rp["mode"])
     v2 = rp["version"] == "2.x"
     hs = {}
